@@ -10,7 +10,7 @@ import (
 )
 
 const (
-	soloStepCap  = 2_000_000
+	soloStepCap  = 6_000_000
 	coldOpLimit  = 2_000_000
 	resNotRun    = ""
 	resSkipUnpub = "skip:unpublished"
@@ -442,6 +442,9 @@ func runScenario(sc *Scenario, r *zsimrt.Rand, replay []zsimrt.Decision) *Outcom
 			SyncQ:     sc.Sched.SyncQ,
 			HookEvery: sc.O2Every,
 			StepCap:   5_000_000,
+		}
+		if sc.Giant {
+			cfg.StepCap = 60_000_000
 		}
 		if cfg.Policy == zsimrt.PolSingle {
 			var aSteps uint64
